@@ -112,6 +112,12 @@ def run(pid, tier, args):
         tf2 = os.path.join(wd, "text.ndjson")
         vlib.vh(vhbin, ["lexstream-record", traw, "4" if tier == "quick" else "5", "text,textcfg", extra], outfile=tf2)
         n2 = validate_file(wd, tf2, v, pid, "text/scanner")
+        # a text/scanner whose Error callback is silent: invalid bytes become tokens; and the reader that delivers data with io.EOF
+        qraw = os.path.join(wd, "qraw.json")
+        gen_lex.write(qraw, list("ae1sxn"), [])
+        tf3 = os.path.join(wd, "textquiet.ndjson")
+        vlib.vh(vhbin, ["lexstream-record", qraw, "4" if tier == "quick" else "5", "textquiet", extra], outfile=tf3)
+        n2 += validate_file(wd, tf3, v, pid, "text/scanner (silent Error callback, DataErrReader)")
         v.validated(n1 + n2)
         first = open(tf).readline()
         v.sample({"token_trace_first_event": json.loads(first) if first.strip() else None})
